@@ -129,6 +129,46 @@ pub fn observe(sc: &Scratch, o: &OptSet, stream: &[u8], nmarks: u32) -> Observed
     Observed { status: status.to_string(), filtered: rd("fast-export.filtered"), commit_map: rd("commit-map"), ref_map: rd("ref-map") }
 }
 
+/// tabulate the pattern rules (`regex:` / `glob:` lines) of the rule files on the inputs of this case
+pub fn fill_regex_tables(o: &mut OptSet, msgs: &[Vec<u8>], blobs: &[Vec<u8>]) {
+    use filter_repo_rs::verif_hooks::{blob_regex, msg_regex, MessageReplacer};
+    let has_rx = |c: &Vec<u8>| c.split(|b| *b == b'\n').any(|l| l.starts_with(b"regex:") || l.starts_with(b"glob:"));
+    let dir = std::env::temp_dir().join(format!("frrs-rx-{}-{:?}", std::process::id(), std::thread::current().id()));
+    let _ = std::fs::create_dir_all(&dir);
+    let p = dir.join("rules");
+    o.rx_msg = None;
+    o.rx_blob = None;
+    if let Some(c) = o.msg_file.clone() {
+        if has_rx(&c) {
+            std::fs::write(&p, &c).unwrap();
+            if let (Ok(lit), Ok(Some(rx))) = (MessageReplacer::from_file(&p), msg_regex::RegexReplacer::from_file(&p)) {
+                let mut t: Vec<(Vec<u8>, Vec<u8>)> = Vec::new();
+                for m in msgs {
+                    let k = lit.apply(m.clone());
+                    let v = rx.apply_regex(k.clone());
+                    if k != v && !t.iter().any(|(a, _)| a == &k) { t.push((k, v)); }
+                }
+                o.rx_msg = Some(t);
+            }
+        }
+    }
+    if let Some(c) = o.blob_file.clone() {
+        if has_rx(&c) {
+            std::fs::write(&p, &c).unwrap();
+            if let (Ok(lit), Ok(Some(rx))) = (MessageReplacer::from_file(&p), blob_regex::RegexReplacer::from_file(&p)) {
+                let mut t: Vec<(Vec<u8>, Vec<u8>)> = Vec::new();
+                for b in blobs {
+                    let k = lit.apply(b.clone());
+                    let v = rx.apply_regex(k.clone());
+                    if k != v && !t.iter().any(|(a, _)| a == &k) { t.push((k, v)); }
+                }
+                o.rx_blob = Some(t);
+            }
+        }
+    }
+    let _ = std::fs::remove_dir_all(&dir);
+}
+
 pub fn rx_hits(o: &OptSet, paths: &[Vec<u8>]) -> Vec<Vec<u8>> {
     let res: Vec<regex::bytes::Regex> = o.regexes.iter().map(|r| regex::bytes::Regex::new(r).unwrap()).collect();
     paths.iter().filter(|p| res.iter().any(|re| re.is_match(p))).cloned().collect()
@@ -158,6 +198,8 @@ pub fn model_request(o: &OptSet, stream: &[u8], nmarks: u32, all_paths: &[Vec<u8
     f(&mut kv, "authorfile", &o.author_file);
     f(&mut kv, "committerfile", &o.committer_file);
     f(&mut kv, "shmap", &o.prior_map);
+    if let Some(t) = &o.rx_msg { kv.push(format!("rxmsg={}", enc_pairs(t))); }
+    if let Some(t) = &o.rx_blob { kv.push(format!("rxblob={}", enc_pairs(t))); }
     if let Some(s) = o.shift { kv.push(format!("shift={s}")); }
     if let Some(s) = o.set { kv.push(format!("set={s}")); }
     kv.push(format!("pe={}", pm_name(o.prune_empty)));
